@@ -2549,8 +2549,8 @@ class Summariser:
                     vname = st_.args.args[2].arg
                     made = [c_ for c_ in ast.walk(st_) if isinstance(c_, ast.Call) and
                             any(isinstance(a_, ast.Name) and a_.id == vname for a_ in c_.args) and
-                            not (isinstance(c_.func, ast.Name) and c_.func.id in ("isinstance", "type", "repr", "str", "len", "print", "setattr")) and
-                            not (isinstance(c_.func, ast.Attribute) and c_.func.attr in ("format", "__setitem__"))]
+                            ast.unparse(c_.func).rsplit(".", 1)[-1] in ("deepcopy", "copy", "list", "dict", "set", "tuple", "array",
+                                                                         "asarray", "frozenset", "deque")]
                     if made:
                         return K
         return None
